@@ -471,6 +471,10 @@ def install_kv(eng, cfg=None):
             q.changes = n
             return SQLITE_DONE
         m = RE_DELETE.match(sql)
+        if m and s_.kind == 'write' and tname(m.group(1)) in cfg.get('unmodelled_tables', ('PlaylistEntity', 'PreparelistEntity')):
+            # tables the key/value world does not hold (they are empty here): a DELETE on them removes nothing
+            q.changes = 0
+            return SQLITE_DONE
         if m and s_.kind == 'write':
             table, where = tname(m.group(1)), parse_where(m.group(2))
             if where is None: raise E.Inconclusive('sqlmodel', 'unsupported WHERE clause: ' + sql[:100])
